@@ -465,14 +465,12 @@ class PhyBo(Wordlist):
         nodes = [t.Name for t in tree.tips()]
         log.debug("Nodes are {0}.".format(','.join(nodes)))
 
-        if mode == 1:
-            return [(tree.Name, 1)]
-
-        # store the scenario
-        scenario = []
+        # store the scenario (a single origin needs no search; its losses are
+        # filled in below like those of all other origins)
+        scenario = [(tree.Name, 1)] if mode == 1 else []
 
         # make the queue
-        queue = [[tree, 1]]
+        queue = [[tree, 1]] if mode != 1 else []
         while queue:
             # get tree and counter from queue
             tmp_tree, counter = queue.pop(0)
